@@ -2,6 +2,7 @@ package lib
 
 import (
 	"reflect"
+	"strconv"
 	"strings"
 
 	"github.com/openconfig/ygot/ygot"
@@ -133,6 +134,11 @@ func (g *Gen) Mutate(root ygot.GoStruct, k int) []string {
 			if f.Kind == KLeaf && f.LeafrefPath != "" {
 				continue
 			}
+			if f.Kind == KLeaf && fv.Kind() == reflect.Interface && !fv.IsNil() && g.coin(0.5) && g.unionTwin(sv, f, fv) {
+				log = append(log, "union-member-twin "+where)
+				g.Tags["union-member-twin"]++
+				continue
+			}
 			fv.Set(reflect.Zero(fv.Type()))
 			g.setField(sv, f, n.Path, len(n.Path))
 			log = append(log, "regen "+where)
@@ -209,4 +215,49 @@ func (g *Gen) rebuildOrdered(fv reflect.Value, f func([]reflect.Value) []reflect
 		nm.MethodByName("Append").Call([]reflect.Value{v})
 	}
 	fv.Set(nm)
+}
+
+// unionTwin replaces the value of a union leaf by the value of ANOTHER member that has the same Go
+// kind and the same raw number: enumeration value number n <-> the integer n (different YANG values).
+func (g *Gen) unionTwin(sv reflect.Value, f *FieldInfo, fv reflect.Value) bool {
+	cur := fv.Elem()
+	for cur.Kind() == reflect.Ptr || cur.Kind() == reflect.Struct {
+		if cur.Kind() == reflect.Ptr {
+			if cur.IsNil() {
+				return false
+			}
+			cur = cur.Elem()
+		} else {
+			if cur.NumField() != 1 {
+				return false
+			}
+			cur = cur.Field(0)
+		}
+	}
+	if cur.Kind() != reflect.Int64 {
+		return false
+	}
+	num := cur.Int()
+	canon := ""
+	if cur.Type().Implements(goEnumT) {
+		canon = "int64:" + strconv.FormatInt(num, 10)
+	} else {
+		var cands []reflect.Type
+		cands = append(cands, g.enumMap["/"+strings.Join(DataPath(f.Entry), "/")]...)
+		cands = append(cands, g.enumMap[f.Entry.Path()]...)
+		for _, et := range cands {
+			if name, ok := EnumDefs(et)[num]; ok {
+				canon = "enum:" + name
+			}
+		}
+	}
+	if canon == "" {
+		return false
+	}
+	uv, ok := g.unionFromCanon(sv, f, fv.Type(), canon)
+	if !ok {
+		return false
+	}
+	fv.Set(uv)
+	return true
 }
